@@ -3,6 +3,7 @@ import re
 
 from lib.mir import AnchorMissing
 from . import nf_common, nfq
+from .guardlib import gval, comparisons, lt_true, ge_true
 
 MANIFEST = {
     "text": "Pairing and provenance rules on Utf8LossyDecoder (and LossyDecoder's plumbing): every U+FFFD handed to the inner sink is immediately preceded by exactly one error report and vice versa; unchecked reinterpretation is applied only to the whole chunk on the decode-Ok edge or to subtendril(0, valid_prefix.len()); finish() reports a pending incomplete sequence exactly when one is stored; the position at which decoding resumes after an invalid sequence is valid_prefix + the whole invalid sequence. Plus equality of stream.rs / utf8_decode.rs / futf.rs functions and the from_utf8 drivers with their reviewed normal forms. Thorough tier, all-features pass: the encoding_rs path of LossyDecoder flushes with last = true at finish, pairs one error with each U+FFFD, reinterprets only decoder-written bytes as UTF-8, advances by bytes_read and leaves its loop only on InputEmpty or empty input (R10.6).",
@@ -87,7 +88,7 @@ def r10_3(ctx):
     key, pcs = nfq.cells(ctx, AREA, DEC + "::finish")
     ok = True
     for pc in nfq.feasible(pcs):
-        pending = pc["guards"].get("self.incomplete.is_some()")
+        pending = gval(pc["guards"], "self.incomplete matches Some(_)")
         reps = sum(1 for x in nfq.texts(pc) if _is_rep(x))
         fin = nfq.names(pc)[-1:] == ["self.inner_sink.finish"]
         if pending is None or reps != (1 if pending else 0) or not fin:
